@@ -8,6 +8,7 @@
   bounds through iteration counts.
 -/
 import Snmp.Model.Ber
+import Snmp.Model.UsmParams
 namespace Snmp.Props.C20
 open Snmp Snmp.Ber
 
@@ -35,9 +36,77 @@ theorem find00_go_ge (bs : Bytes) : ∀ (i e : Nat), find00.go bs i = some e →
 theorem find00_ge (data : Bytes) (frm e : Nat) (h : find00 data frm = some e) : frm ≤ e :=
   find00_go_ge _ _ _ h
 
-/-- every successfully decoded TLV either moves the cursor forward or sits on a bad header -/
-theorem decodeAt_progress (data : Bytes) (pos : Nat) (n : Node) (nxt : Nat)
-    (h : decodeAt data pos = .ok (n, nxt)) : pos < nxt ∨ BadHeader data pos := by
+theorem decodeLength_not_fuel (data : Bytes) (i : Nat) : decodeLength data i ≠ .error .outOfFuel := by
+  unfold decodeLength
+  cases hb : data[i]? with
+  | none => simp
+  | some d0 =>
+    simp only
+    by_cases h1 : d0 = 255
+    · simp [h1]
+    · by_cases h2 : d0 < 128
+      · simp [h1, h2]
+      · by_cases h3 : d0 = 128 <;> simp [h1, h2, h3]
+
+/-- `get_value_slice` never fails for lack of fuel (it does not loop) -/
+theorem getValueSlice_not_fuel (data : Bytes) (pos : Nat) : getValueSlice data pos ≠ .error .outOfFuel := by
+  unfold getValueSlice
+  cases hl : decodeLength data (pos + 1) with
+  | error e =>
+    simp only [bind, Except.bind]
+    intro h; cases h
+    exact decodeLength_not_fuel data (pos + 1) hl
+  | ok li =>
+    cases li with
+    | definite len off =>
+      simp only [bind, Except.bind]
+      by_cases hs : pos + 1 + off + len > data.length
+      · simp [hs, throw, throwThe, MonadExceptOf.throw]
+      · simp [hs, pure, Except.pure]
+    | indefinite =>
+      simp only [bind, Except.bind]
+      cases hf : find00 data pos <;> simp [pure, Except.pure]
+
+/-- every located value either moves the cursor forward or sits on a bad header -/
+theorem getValueSlice_progress (data : Bytes) (pos : Nat) (sl : Slice) (nxt : Nat)
+    (h : getValueSlice data pos = .ok (sl, nxt)) : pos < nxt ∨ BadHeader data pos := by
+  unfold getValueSlice at h
+  cases hl : decodeLength data (pos + 1) with
+  | error e => simp [hl, bind, Except.bind] at h
+  | ok li =>
+    cases li with
+    | definite len off =>
+      simp only [hl, bind, Except.bind] at h
+      by_cases hs : pos + 1 + off + len > data.length
+      · simp [hs, throw, throwThe, MonadExceptOf.throw] at h
+      · simp only [hs, ↓reduceIte, pure, Except.pure, Except.ok.injEq, Prod.mk.injEq] at h
+        left; omega
+    | indefinite =>
+      simp only [hl, bind, Except.bind] at h
+      cases hf : find00 data pos with
+      | some e =>
+        simp only [hf, pure, Except.pure, Except.ok.injEq, Prod.mk.injEq] at h
+        have := find00_ge data pos e hf
+        left; omega
+      | none =>
+        right
+        refine ⟨?_, hf⟩
+        unfold decodeLength at hl
+        cases hb : data[pos + 1]? with
+        | none => simp [hb] at hl
+        | some d0 =>
+          simp only [hb] at hl
+          by_cases h1 : d0 = 255
+          · simp [h1] at hl
+          · by_cases h2 : d0 < 128
+            · simp [h1, h2] at hl
+            · by_cases h3 : d0 = 128
+              · rw [h3]
+              · simp [h1, h2, h3] at hl
+
+/-- what a successful `x690.decode` went through: the value was located -/
+theorem decodeAt_ok (data : Bytes) (pos : Nat) (n : Node) (nxt : Nat)
+    (h : decodeAt data pos = .ok (n, nxt)) : ∃ sl, getValueSlice data pos = .ok (sl, nxt) := by
   unfold decodeAt at h
   cases hd : data[pos]? with
   | none => simp [hd] at h
@@ -46,39 +115,41 @@ theorem decodeAt_progress (data : Bytes) (pos : Nat) (n : Node) (nxt : Nat)
     by_cases ht : t = 255
     · simp [ht] at h
     · simp only [ht, ↓reduceIte] at h
-      unfold getValueSlice at h
-      cases hl : decodeLength data (pos + 1) with
-      | error e => simp [hl, bind, Except.bind] at h
-      | ok li =>
-        cases li with
-        | definite len off =>
-          simp only [hl, bind, Except.bind] at h
-          by_cases hs : pos + 1 + off + len > data.length
-          · simp [hs, throw, throwThe, MonadExceptOf.throw] at h
-          · simp only [hs, ↓reduceIte, pure, Except.pure, Except.ok.injEq, Prod.mk.injEq] at h
-            left; omega
-        | indefinite =>
-          simp only [hl, bind, Except.bind] at h
-          cases hf : find00 data pos with
-          | some e =>
-            simp only [hf, pure, Except.pure, Except.ok.injEq, Prod.mk.injEq] at h
-            have := find00_ge data pos e hf
-            left; omega
-          | none =>
-            right
-            refine ⟨?_, hf⟩
-            unfold decodeLength at hl
-            cases hb : data[pos + 1]? with
-            | none => simp [hb] at hl
-            | some d0 =>
-              simp only [hb] at hl
-              by_cases h1 : d0 = 255
-              · simp [h1] at hl
-              · by_cases h2 : d0 < 128
-                · simp [h1, h2] at hl
-                · by_cases h3 : d0 = 128
-                  · rw [h3]
-                  · simp [h1, h2, h3] at hl
+      cases hg : getValueSlice data pos with
+      | error e => simp [hg, bind, Except.bind] at h
+      | ok r =>
+        obtain ⟨sl, nx⟩ := r
+        simp only [hg, bind, Except.bind] at h
+        split at h
+        · simp [throw, throwThe, MonadExceptOf.throw] at h
+        · simp only [pure, Except.pure, Except.ok.injEq, Prod.mk.injEq] at h
+          exact ⟨sl, by rw [h.2]⟩
+
+/-- a decode error is never `outOfFuel` -/
+theorem decodeAt_not_fuel (data : Bytes) (pos : Nat) : decodeAt data pos ≠ .error .outOfFuel := by
+  unfold decodeAt
+  cases hd : data[pos]? with
+  | none => simp
+  | some t =>
+    simp only
+    by_cases ht : t = 255
+    · simp [ht]
+    · simp only [ht, ↓reduceIte]
+      cases hg : getValueSlice data pos with
+      | error e =>
+        simp only [bind, Except.bind]
+        intro h; cases h
+        exact getValueSlice_not_fuel data pos hg
+      | ok r =>
+        obtain ⟨sl, nx⟩ := r
+        simp only [bind, Except.bind]
+        split <;> simp [throw, throwThe, MonadExceptOf.throw, pure, Except.pure]
+
+/-- every successfully decoded TLV either moves the cursor forward or sits on a bad header -/
+theorem decodeAt_progress (data : Bytes) (pos : Nat) (n : Node) (nxt : Nat)
+    (h : decodeAt data pos = .ok (n, nxt)) : pos < nxt ∨ BadHeader data pos := by
+  obtain ⟨sl, hg⟩ := decodeAt_ok data pos n nxt h
+  exact getValueSlice_progress data pos sl nxt hg
 
 /-- the loop of `Sequence.decode_raw`, started at `pos` with `k` octets of the datagram still
     ahead, never exhausts a budget of `k + 1` iterations on a guarded datagram -/
@@ -107,39 +178,7 @@ theorem loop_terminates (data : Bytes) (hg : Guard data) (stop : Int) :
       | error e =>
         simp only [hd, bind, Except.bind]
         intro h; cases h
-        -- a decode error is never `outOfFuel`
-        unfold decodeAt at hd
-        cases hx : data[pos]? with
-        | none => simp [hx] at hd
-        | some t =>
-          simp only [hx] at hd
-          by_cases ht : t = 255
-          · simp [ht] at hd
-          · simp only [ht, ↓reduceIte] at hd
-            unfold getValueSlice at hd
-            cases hl : decodeLength data (pos + 1) with
-            | error e' =>
-              simp only [hl, bind, Except.bind] at hd
-              unfold decodeLength at hl
-              cases hb : data[pos + 1]? with
-              | none => simp [hb] at hl; rw [← hl] at hd; cases hd
-              | some d0 =>
-                simp only [hb] at hl
-                by_cases h1 : d0 = 255
-                · simp [h1] at hl; rw [← hl] at hd; cases hd
-                · by_cases h2 : d0 < 128
-                  · simp [h1, h2] at hl
-                  · by_cases h3 : d0 = 128 <;> simp [h1, h2, h3] at hl
-            | ok li =>
-              cases li with
-              | definite len off =>
-                simp only [hl, bind, Except.bind] at hd
-                by_cases hs : pos + 1 + off + len > data.length
-                · simp [hs, throw, throwThe, MonadExceptOf.throw] at hd
-                · simp [hs, pure, Except.pure] at hd
-              | indefinite =>
-                simp only [hl, bind, Except.bind] at hd
-                cases hf : find00 data pos <;> simp [hf, pure, Except.pure] at hd
+        exact decodeAt_not_fuel data pos hd
       | ok r =>
         rcases r with ⟨item, nxt⟩
         simp only [hd, bind, Except.bind]
@@ -161,39 +200,7 @@ theorem C20_cost_partial (data : Bytes) (hg : Guard data) (sl : Slice) :
     | error e =>
       simp only [hd, bind, Except.bind]
       intro h; cases h
-      -- same argument as above: a decode error is never `outOfFuel`
-      unfold decodeAt at hd
-      cases hx : data[sl.start]? with
-      | none => simp [hx] at hd
-      | some t =>
-        simp only [hx] at hd
-        by_cases ht : t = 255
-        · simp [ht] at hd
-        · simp only [ht, ↓reduceIte] at hd
-          unfold getValueSlice at hd
-          cases hl : decodeLength data (sl.start + 1) with
-          | error e' =>
-            simp only [hl, bind, Except.bind] at hd
-            unfold decodeLength at hl
-            cases hb : data[sl.start + 1]? with
-            | none => simp [hb] at hl; rw [← hl] at hd; cases hd
-            | some d0 =>
-              simp only [hb] at hl
-              by_cases h1 : d0 = 255
-              · simp [h1] at hl; rw [← hl] at hd; cases hd
-              · by_cases h2 : d0 < 128
-                · simp [h1, h2] at hl
-                · by_cases h3 : d0 = 128 <;> simp [h1, h2, h3] at hl
-          | ok li =>
-            cases li with
-            | definite len off =>
-              simp only [hl, bind, Except.bind] at hd
-              by_cases hs : sl.start + 1 + off + len > data.length
-              · simp [hs, throw, throwThe, MonadExceptOf.throw] at hd
-              · simp [hs, pure, Except.pure] at hd
-            | indefinite =>
-              simp only [hl, bind, Except.bind] at hd
-              cases hf : find00 data sl.start <;> simp [hf, pure, Except.pure] at hd
+      exact decodeAt_not_fuel data sl.start hd
     | ok r =>
       rcases r with ⟨first, next⟩
       simp only [hd, bind, Except.bind]
@@ -244,5 +251,50 @@ theorem guard_of_guardB (data : Bytes) (h : guardB data = true) : Guard data := 
   simp [h1, h2] at this
 
 example : Guard [48, 6, 2, 1, 5, 4, 1, 97] := guard_of_guardB _ (by decide)
+
+/-- What enters the discovery cache (and what every incoming message is authenticated with) was
+    read from items of exactly the universal classes OCTET STRING / INTEGER: a parameter block in
+    which an item carries an SNMP application tag — TimeTicks (0x43) for the boots, whose value
+    would be handed on as a `timedelta`; Counter, Gauge, Opaque … — is refused as malformed and
+    nothing is cached (generated: `type(item) is cls` in `from_snmp_type`). -/
+theorem C20_disco_params_typed (data : Bytes) (fuel : Nat) (p : UsmParams.Params)
+    (h : UsmParams.ofBytes data fuel = .ok p) :
+    UsmParams.acceptedClasses data fuel =
+      some ["OctetString", "Integer", "Integer", "OctetString", "OctetString", "OctetString"] := by
+  unfold UsmParams.ofBytes at h
+  unfold UsmParams.acceptedClasses
+  cases h1 : decodeAt data 0 with
+  | error e => simp [UsmParams.lift, h1] at h
+  | ok r =>
+    obtain ⟨n, nx⟩ := r
+    simp only [UsmParams.lift, h1] at h
+    split at h
+    · cases h
+    · cases h2 : seqItems data n.slice fuel with
+      | error e => simp [h2] at h
+      | ok items =>
+        simp only [h2] at h
+        split at h
+        · cases h
+        · rename_i hc
+          match items, h, hc with
+          | [e, b, t, u, a, q], _, hc =>
+            simp [UsmParams.classOk, Gen.usmParamExact, Gen.usmParamClasses] at hc
+            simp only [h2]
+            simp [hc]
+          | [], h, _ => simp at h
+          | [_], h, _ => simp at h
+          | [_, _], h, _ => simp at h
+          | [_, _, _], h, _ => simp at h
+          | [_, _, _, _], h, _ => simp at h
+          | [_, _, _, _, _], h, _ => simp at h
+          | _ :: _ :: _ :: _ :: _ :: _ :: _ :: _, h, _ => simp at h
+
+/-- non-vacuity: the parameter block of an ordinary discovery reply is accepted; with the boots
+    tagged TimeTicks it is refused -/
+example : UsmParams.ofBytes [48, 16, 4, 2, 128, 0, 2, 1, 3, 2, 1, 9, 4, 0, 4, 0, 4, 0] 32
+      = .ok ⟨[128, 0], 3, 9, [], [], []⟩
+    ∧ UsmParams.ofBytes [48, 16, 4, 2, 128, 0, 67, 1, 3, 2, 1, 9, 4, 0, 4, 0, 4, 0] 32 = .error .malformed :=
+  ⟨by rfl, by rfl⟩
 
 end Snmp.Props.C20
